@@ -68,11 +68,6 @@ def hcat (ns : List Nat) (blk : Nat → Nat → Nat → α) : Mat α :=
     | some (j, o) => blk j r o
     | none => k 0
 
-/-- positions (in `named_parameters` order) of the parameters with `requires_grad=True` -/
-def keepIdx : List Bool → Nat → List Nat
-  | [], _ => []
-  | b :: bs, i => if b then i :: keepIdx bs (i + 1) else keepIdx bs (i + 1)
-
 /-- widths of the blocks that are kept: `p.numel()` of the parameters with `requires_grad=True` -/
 def keepNumels : List (Nat × Bool) → List Nat
   | [] => []
@@ -82,9 +77,11 @@ def keepNumels : List (Nat × Bool) → List Nat
 `torch.cat([j.reshape(-1, p.numel()) for j, p in zip(J, params_values) if p.requires_grad], 1)`.
 `ps` = `(p.numel(), p.requires_grad)` of every named parameter, `blk j` the reshaped block of parameter `j`
 (`modjac` returns a block for *every* parameter; the frozen ones are dropped here). -/
-def flattenRowJac (ps : List (Nat × Bool)) (blk : Nat → Nat → Nat → α) : Mat α :=
-  let idx := keepIdx (ps.map (·.2)) 0
-  hcat (keepNumels ps) fun j => blk (idx.getD j 0)
+def flattenRowJac : List (Nat × Bool) → (Nat → Nat → Nat → α) → Mat α
+  | [], _ => fun _ _ => k 0
+  | (n, true) :: ps, blk => fun r c =>
+      if c < n then blk 0 r c else flattenRowJac ps (fun j => blk (j + 1)) r (c - n)
+  | (_, false) :: ps, blk => flattenRowJac ps (fun j => blk (j + 1))
 
 /-- `torch.cat` of vectors of lengths `ms` -/
 def vcatV (ms : List Nat) (vs : Nat → Vec α) : Vec α :=
